@@ -368,6 +368,7 @@ fn exec_toks(t: &[&str]) -> Option<String> {
             }
             Some(out)
         }
+        ("opt", op) => crate::opt::exec_opt(op, &t[2..]),
         ("tables", "group") => {
             let raw = t.get(2).copied().unwrap_or("");
             let name = if let Some(h) = raw.strip_prefix("hex:") { unshex(h)? } else { raw.to_string() };
